@@ -500,3 +500,134 @@ def h_empty_subscription(F, R):
         good = k[0] == "err" and isinstance(k[1], Adt) and k[1].variant == "EmptySubscription" and not reads
         R.check(good, "H-raise", "empty-subscription/%s/%s" % (fam, typ),
                 "%s on a frame that ends after the packet identifier%s returns %r after reading %s" % (fid, " and an empty property block" if fam == "v5" else "", r, reads), where=fid)
+
+
+# ---- short forms of the v5 acknowledgement family -------------------------------------------------------------------
+
+SHORT_FORMS = {
+    # decoder: (bytes before the reason code, [remaining lengths evaluated])
+    "v5::publish::Puback::decode_async": ("Puback", 2), "v5::publish::Pubrec::decode_async": ("Pubrec", 2),
+    "v5::publish::Pubrel::decode_async": ("Pubrel", 2), "v5::publish::Pubcomp::decode_async": ("Pubcomp", 2),
+    "v5::connect::Disconnect::decode_async": ("Disconnect", 0), "v5::connect::Auth::decode_async": ("Auth", 0),
+}
+
+
+def h_shortform(F, R):
+    """MQTT 5 short forms (3.4.2.1, 3.14.2.1, 3.15.2.1), decided by evaluating each decoder on concrete
+    remaining lengths with byte-counting read hooks. With `pre` bytes before the reason code (2 for the PUBACK
+    family, 0 for DISCONNECT/AUTH): remaining length pre -> nothing further read, reason Success/Normal and default
+    properties; pre+1 -> exactly the reason byte (PUBACK family and DISCONNECT only; AUTH has no such form and
+    must go on to the property length); >= pre+2 -> reason byte, then the property decoder. In every accepted
+    fixed-size form the bytes read equal the remaining length (nothing is left for the next packet)."""
+    n = 0
+    for fid, (typ, pre) in sorted(SHORT_FORMS.items()):
+        if fid not in F.fns:
+            raise AnchorLost(fid)
+        for rl in range(pre, pre + 7):
+            n += 1
+            st = {"read": 0, "props": 0, "after_props": 0}
+
+            def hook(d, res, args, node, env):
+                r = res or d
+                name = node["fn"].get("name")
+                size = {"common::utils::read_u8": 1, "common::utils::read_u16": 2, "common::utils::read_u32": 4}.get(r)
+                if size:
+                    st["after_props" if st["props"] else "read"] += size
+                    return ok(0 if size == 1 else 7)
+                if name == "read_exact":
+                    buf = args[1] if len(args) > 1 else None
+                    k = len(buf.items) if isinstance(buf, Tup) else None
+                    if k is None:
+                        raise Undecided("read_exact into a buffer of unknown size")
+                    st["after_props" if st["props"] else "read"] += k
+                    tgt = strip(node["args"][1])
+                    while tgt.get("k") == "Call":
+                        tgt = strip(tgt["args"][0])
+                    if tgt.get("k") == "Var":
+                        env[tgt["var"]["id"]] = Tup([0] * (k - 1) + [7 if k > 1 else 0])
+                    return ok(UNIT)
+                if r.endswith("Properties::decode_async"):
+                    st["props"] += 1
+                    return ok(Sym("PROPS"))
+                if r in ("common::utils::read_bytes", "common::utils::read_string", "common::utils::decode_var_int"):
+                    raise Undecided("unexpected read %s" % r)
+                if r.endswith("TryFrom<u16>>::try_from"):
+                    return ok(Sym("PID"))
+                if name == "default" and not args:
+                    return Sym("DEFAULT")
+                return None
+            hdr = _hdr("v5", typ, rl)
+            try:
+                r = PE(F, call_hook=hook, cond_hook=TRY_OK).call_fn(fid, [Sym("READER"), hdr])
+            except Undecided as e:
+                raise AnchorLost("%s cannot be evaluated for remaining length %d: %s" % (fid, rl, e))
+            k = result_kind(r)
+            key = "%s/rl%d" % (typ, rl)
+            want_read = min(rl, pre + 1)
+            want_props = 1 if (rl >= pre + 2 or (typ == "Auth" and rl == pre + 1)) else 0
+            got = (k[0], st["read"], st["props"], st["after_props"])
+            if want_props:
+                good = got == ("ok", want_read, 1, 0) or (typ == "Auth" and rl == pre + 1 and k[0] == "err")
+            else:
+                good = got == ("ok", want_read, 0, 0)
+            R.check(good, "H-shortform", key,
+                    "%s with remaining length %d: result %s after reading %d fixed bytes, %d property-block decodes, %d bytes after them "
+                    "(specified: %d fixed bytes, %s)" % (fid, rl, k[0], st["read"], st["props"], st["after_props"], want_read,
+                                                        "then the property block" if want_props else "no property block, defaults"), where=fid)
+            if good and k[0] == "ok" and isinstance(k[1], Adt):
+                props = k[1].fields.get("properties")
+                R.check(props == (Sym("PROPS") if want_props else Sym("DEFAULT")), "H-shortform", key + "/properties",
+                        "%s with remaining length %d stores %r as properties" % (fid, rl, props), where=fid)
+                rc = k[1].fields.get("reason_code")
+                R.check(isinstance(rc, Adt) and rc.variant in ("Success", "NormalDisconnect", "NormalDisconnection"), "H-shortform", key + "/reason",
+                        "%s with remaining length %d and reason byte 0 (or none) yields reason %r" % (fid, rl, rc), where=fid)
+    R.floor("H-shortform", "decoder x remaining length", n, 42)
+
+
+# ---- hand-written comparison impls of TopicFilter ------------------------------------------------------------------------
+
+def h_fields_values(F, R):
+    """TopicFilter's PartialEq::eq, Ord::cmp, PartialOrd::partial_cmp and Hash::hash evaluated on abstract values:
+    the result is exactly the text's own eq / cmp / hash, for any value of the cached separator index."""
+    adt = "common::types::TopicFilter"
+    n = 0
+    for seps in ((0, 0), (3, 5), (4, 0)):
+        a = Adt(adt, "TopicFilter", {"inner": Sym("A"), "shared_filter_sep": seps[0]})
+        b = Adt(adt, "TopicFilter", {"inner": Sym("B"), "shared_filter_sep": seps[1]})
+        for tr, m in (("PartialEq", "eq"), ("Ord", "cmp"), ("PartialOrd", "partial_cmp"), ("Hash", "hash")):
+            fid = F.impl_method(tr, adt, m)
+            if fid is None:
+                raise AnchorLost("impl %s for TopicFilter" % tr)
+            n += 1
+            calls = []
+
+            def hook(d, res, args, node, env):
+                fn = node["fn"]
+                if (res or d) in F.fns:
+                    return None
+                if fn.get("krate") != F.data["crate"] and fn.get("name") in ("eq", "ne", "cmp", "partial_cmp", "hash", "lt", "le", "gt", "ge"):
+                    calls.append((fn["name"], tuple(vkey(x) for x in args)))
+                    return Sym((fn["name"],) + tuple(vkey(x) for x in args))
+                if fn.get("krate") != F.data["crate"] and fn.get("name") in ("get", "get_unchecked", "index", "split_at", "len", "as_bytes") and args:
+                    return Sym(("slice-of", vkey(args[0]), tuple(vkey(x) for x in args[1:])))
+                return None
+
+            def cond(what, node):
+                if what[0] == "cmp" or what[0] == "truth":
+                    return True
+                return None
+            try:
+                r = PE(F, call_hook=hook, cond_hook=cond).call_fn(fid, [a, b if m != "hash" else Sym("STATE")])
+            except Undecided as e:
+                raise AnchorLost("%s::%s for TopicFilter cannot be evaluated: %s" % (tr, m, e))
+            A, B = vkey(Sym("A")), vkey(Sym("B"))
+            if m == "hash":
+                good = calls == [("hash", (A, vkey(Sym("STATE"))))]
+            elif m == "partial_cmp":
+                good = (r == some(Sym(("cmp", A, B))) and calls == [("cmp", (A, B))]) or (r == Sym(("partial_cmp", A, B)) and len(calls) == 1)
+            else:
+                good = r == Sym((m, A, B)) and calls == [(m, (A, B))]
+            R.check(good, "H-fields", "%s/value/sep-%d-%d" % (tr, seps[0], seps[1]),
+                    "%s::%s for TopicFilter (cached separator indices %s) evaluates to %r via %s; it must be exactly the text's own %s" % (
+                        tr, m, seps, r, calls[:3], m), where=fid)
+    R.floor("H-fields", "comparison impl evaluations", n, 12)
